@@ -130,8 +130,9 @@ theorem lt_gt_converse (E : Env) (a b : Value) :
   ⟨cv_conv E .lt a b, cv_conv E .le a b⟩
 
 /-- **C23_partial**: on every set of well-formed null/NaN-free values outside the two known triggers
-    (`lawDomain`: plain values — C23-list-nonplain-order; strings compared as text —
-    C23-temporal-string-compare): `<=` is `<` or `=`, `>=` is `>` or `=` … -/
+    (`lawDomain`: plain values — C23-list-nonplain-order; on the strings present "ordered equal" is text equality
+    and the comparison is transitive — C23-temporal-string-compare; strings that are temporal values of one kind with
+    different keys are INSIDE the domain and ordered chronologically): `<=` is `<` or `=`, `>=` is `>` or `=` … -/
 theorem C23_partial_le_iff (E : Env) (vs : List Value) (h : lawDomain E vs = true) (a b : Value)
     (ha : a ∈ vs) (hb : b ∈ vs) :
     compareValues E .le a b = orEq (compareValues E .lt a b) (cypherEquals a b) ∧
